@@ -330,3 +330,30 @@ pub fn concat_replies(rs: &[Reply]) -> Vec<u8> {
     }
     v
 }
+
+/// Wire offset just past the `k`-th content byte (k >= 1) of the request's input stream with index `idx`
+/// (same walk as `stream`): everything before that offset has been parsed by whoever delivered that byte.
+pub fn stream_byte_end(w: &[u8], start: usize, id: u16, role: u16, idx: usize, k: usize) -> Option<usize> {
+    let streams = role_streams(role);
+    let mut p = start;
+    let mut acc = 0usize;
+    loop {
+        let h = hdr(w, p)?;
+        if h.version != 1 { return None; }
+        let body = p + 8;
+        let next = body + h.clen + h.pad;
+        if (h.t == STDIN || h.t == DATA) && h.id == id {
+            if let Some(i) = streams.iter().position(|&s| s == h.t) {
+                if i > idx || (i == idx && h.clen == 0) { return None; }
+                if i == idx {
+                    if acc + h.clen >= k { return Some(body + (k - acc)); }
+                    acc += h.clen;
+                }
+            }
+        } else if h.t == ABORT && h.id == id {
+            return None;
+        }
+        if w.len() < next { return None; }
+        p = next;
+    }
+}
